@@ -408,6 +408,79 @@ func runC19(r *core.Run) {
 		add(map[string]interface{}{"kind": "load", "class": map[string]string{"ok": "ok", "fatal": "fatal", "ragged": "ok"}[rclasses[i]], "rectangular": rclasses[i] != "ragged"}, rdesc[i], "random-input:"+rclasses[i])
 	}
 
+	// ---- (e) valid files around the loader's internal thresholds (record-set capacity estimate after 300 records,
+	// read buffers of 2 KiB / 4 KiB), in every encoding, ASCII and multi-byte contents ----
+	type szjob struct {
+		n    int
+		enc  string
+		cjk  bool
+		fmtn string
+	}
+	var szjobs []szjob
+	counts := []int{299, 300, 301, 320, 374, 400}
+	if r.Thorough {
+		counts = []int{1, 2, 127, 128, 299, 300, 301, 310, 320, 340, 360, 374, 375, 400, 599, 600, 601, 1000, 2048, 4097}
+	}
+	for _, n := range counts {
+		for _, enc := range []string{"UTF8", "UTF8M", "UTF16", "SJIS"} {
+			for _, cjk := range []bool{false, true} {
+				for _, f := range []string{"CSV", "TSV", "LTSV"} {
+					szjobs = append(szjobs, szjob{n, enc, cjk, f})
+				}
+			}
+		}
+	}
+	szres := make([]string, len(szjobs))
+	szdesc := make([]string, len(szjobs))
+	core.Parallel(len(szjobs), 8, func(i int) {
+		j := szjobs[i]
+		dir := r.Dir(fmt.Sprintf("sz%d", i))
+		defer os.RemoveAll(dir)
+		cell := "abcdefghijklmnopqrstuvwx"
+		if j.cjk {
+			cell = "漢字漢字漢字漢字漢字漢字漢字漢字漢字漢字漢字漢字"
+		}
+		// written by csvq itself in the wanted encoding from a UTF-8 source
+		var b strings.Builder
+		b.WriteString("id,name\n")
+		for k := 1; k <= j.n; k++ {
+			fmt.Fprintf(&b, "%d,%s\n", k, cell)
+		}
+		writeFile(filepath.Join(dir, "src.csv"), b.String())
+		ext := map[string]string{"CSV": "csv", "TSV": "tsv", "LTSV": "ltsv"}[j.fmtn]
+		out := filepath.Join(dir, "t."+ext)
+		w := sut.RunBin(sut.BinOpts{Csvq: r.Csvq, Dir: dir, Args: []string{"--repository", dir, "--quiet", "--format", j.fmtn, "--write-encoding", j.enc, "--out", out, "SELECT * FROM `src.csv`"}, Timeout: 30 * time.Second})
+		szdesc[i] = fmt.Sprintf("%s file of %d records (%s, cjk=%v)", j.fmtn, j.n, j.enc, j.cjk)
+		if w.IsFatal() || w.Exit != 0 {
+			szres[i] = "fatal"
+			if !w.IsFatal() {
+				szres[i] = "write-refused"
+			}
+			szdesc[i] += ": write: " + firstLine(w.Stderr)
+			return
+		}
+		rs := sut.RunBin(sut.BinOpts{Csvq: r.Csvq, Dir: dir, Args: []string{"--repository", dir, "--quiet", "--format", "CSV", "--import-format", j.fmtn, "--encoding", j.enc, "SELECT COUNT(*) AS n, COUNT(name) AS m, MIN(LEN(name)) AS l FROM `t." + ext + "`"}, Timeout: 30 * time.Second})
+		szdesc[i] += fmt.Sprintf(": exit %d %s %s", rs.Exit, firstLine(rs.Stderr), strings.ReplaceAll(rs.Stdout, "\n", "|"))
+		switch {
+		case rs.IsFatal():
+			szres[i] = "fatal"
+		case rs.Exit != 0:
+			szres[i] = "unreadable"
+		case !strings.Contains(rs.Stdout, fmt.Sprintf("%d,%d,%d", j.n, j.n, len([]rune(cell)))):
+			szres[i] = "wrong-count"
+		default:
+			szres[i] = "ok"
+		}
+	})
+	for i, c := range szres {
+		r.Distinct(szdesc[i][:strings.Index(szdesc[i], ":")])
+		cl := "ok"
+		if c == "fatal" {
+			cl = "fatal"
+		}
+		add(map[string]interface{}{"kind": "load", "class": cl, "rectangular": c == "ok" || c == "fatal" || c == "unreadable" || c == "write-refused"}, szdesc[i], "load-size:"+szjobs[i].fmtn+":"+szjobs[i].enc+":"+c)
+	}
+
 	// ---- TLC judges every event ----
 	rest, base := lines, 0
 	for rounds := 0; rounds < 60 && len(rest) > 0; rounds++ {
